@@ -1,8 +1,11 @@
 package main
 
+import "os"
+
 func c34Extra(r *Run) error {
+	os.Setenv("GOVC_TIER", r.Tier)
 	r.boundedGoTest("C34-corpus", "the reference tokenizer gives the same token sequence for a generated stylesheet and for its minified form, up to comments, insignificant white space and redundant semicolons",
-		"13 base stylesheets (selectors with every combinator, pseudo-classes, escaped delimiters, attribute selectors, at-rules, strings with escapes and comment-like content, quoted and unquoted url( ) with /* inside, calc, custom properties) x every token boundary x 12 fillers (nothing, white space, comments with and without white space around them, comments holding ; } ' \"), plus every white-space token replaced by a comment: about 6 700 stylesheets")
+		"13 base stylesheets (selectors with every combinator, pseudo-classes, escaped delimiters, attribute selectors, at-rules, strings with escapes and comment-like content, quoted and unquoted url( ) with /* inside, calc, custom properties) x every token boundary x 12 fillers (nothing, white space, comments with and without white space around them, comments holding ; } ' \"), plus every white-space token replaced by a comment: about 7 000 stylesheets; thorough tier: also every pair of boundaries x 4 x 4 fillers, about 190 000 stylesheets")
 	return nil
 }
 
